@@ -30,7 +30,7 @@ Variable ps : N.
 
 Notation loop := (parse_path_loop dbg CUrlParser STSpecialNotFile ps).
 
-(* ---------- one step of the loop, non-special scheme, URL parser context ---------- *)
+(* ---------- one step of the loop, special non-file scheme, URL parser context ---------- *)
 Lemma loop_cons_plain_sp c r ser ss pend hh : is_tnl c = false -> (c =? 47) = false -> (c =? 92) = false -> is_qh c = false ->
   loop (c :: r) ser ss pend hh = loop r ser ss (c :: pend) hh.
 Proof.
